@@ -7,8 +7,8 @@ import ZkProofs.Lemmas.ClMonad
 import ZkProofs.Lemmas.IntArithSpec
 import ZkProofs.Lemmas.Encoding
 import ZkModel.ClDriver
-namespace Zk.Cl
-open Zk.IA
+namespace Zk.Cl.Keys
+open Zk.IA Zk.Cl.ArithSpec
 
 /-! ### small arithmetic facts -/
 
@@ -507,4 +507,4 @@ theorem split3 {α} {a b c : List α} {n m : Nat} (ha : a.length = n) (hb : b.le
   · rw [List.drop_left' ha, List.take_left' hb]
   · rw [← List.drop_drop, List.drop_left' ha, List.drop_left' hb]
 
-end Zk.Cl
+end Zk.Cl.Keys
